@@ -250,6 +250,27 @@ func (s LWs) Close() (err error) {
 	return
 }
 
+// WriteLeveled writes p to every member like Write does, and tells a
+// member that wants to know the level (see LevelSettable) right before
+// its Write.
+func (s LWs) WriteLeveled(lvl Level, p []byte) (n int, err error) {
+	for _, w := range s {
+		if x, ok := w.(LevelSettable); ok {
+			x.SetLevel(lvl)
+		} else if lw, ok := w.(*logwr); ok {
+			if x, ok := lw.Writer.(LevelSettable); ok {
+				x.SetLevel(lvl)
+			}
+		}
+		if ni, e := w.Write(p); e != nil {
+			err = errors.Join(err, e)
+		} else {
+			n += ni
+		}
+	}
+	return
+}
+
 func (s LWs) Write(p []byte) (n int, err error) {
 	// TO/DO implement me
 	// /panic("implement me")
